@@ -114,9 +114,6 @@ class Net:
     def observed(self):
         obs = {tag: [] for (tag, _i, _a) in self.listeners}
         for (tag, _t, _prio, pgn, sa, data) in self.rec.items:
-            pf = (pgn >> 8) & 0xFF
-            if pf < 240:
-                pgn &= 0x3FF00           # PDU1: PS is the destination, not part of the PGN (3.6)
             obs[tag].append((pgn, sa, data))
         return obs
 
